@@ -345,6 +345,13 @@ func (nz *normalizer) candidate(fn *types.Func) (res *helper) {
 	if sig.TypeParams() != nil || sig.RecvTypeParams() != nil || sig.Variadic() {
 		return nil
 	}
+	// two kinds of helper are left in place because dedicated rules validate the helper itself and
+	// its call sites (and say more that way than the inlined form would let them say): a helper that
+	// evicts from pool.lowPriority (evict.go: C17.a/b, C02.d) and a helper that parses tile leaves for
+	// the client (C12.b/f)
+	if lowPriorityLoop(f) != nil || (usesReader(f) && sig.Results().Len() == 2) {
+		return nil
+	}
 	if f.Decl.Recv != nil && (len(f.Decl.Recv.List) != 1 || len(f.Decl.Recv.List[0].Names) > 1) {
 		return nil
 	}
